@@ -1509,3 +1509,50 @@ def socmini_csr_only_scenario(std, t, rng, csr_origin=0xf0000000, nops=8):
     if not problems and be != timeouts:
         problems.append("bus_errors = %d after %d timed-out accesses (interconnect %s)" % (be, timeouts, icname))
     return problems, timeouts
+
+
+def probe_accumulated_stalls(t=4):
+    """C11-axi-timeout-accumulates-across-transfers: back-to-back writes on a healthy bus; every AW / W beat is
+    accepted after at most t - 2 stall cycles, but in every cycle SOME beat is stalled, so the write timer (which
+    only reloads in a cycle with no stalled beat) expires: error pulse + forced SLVERR for a transfer that has been
+    pending for 2 cycles.  Schedule for t = 4 (per cycle: aw.valid aw.ready | w.valid w.ready):
+        c0 AW1 stalled | -          c1 AW1 stalled | W1 stalled      c2 AW1 accepted | W1 stalled
+        c3 AW2 stalled | W1 accepted   c4 AW2 stalled | W2 stalled  -> error in c4 (AW2 pending since c3)."""
+    assert t == 4
+    sched = [(1, 0, 0, 0), (1, 0, 1, 0), (1, 1, 1, 0), (1, 0, 1, 1), (1, 0, 1, 0), (1, 0, 1, 0), (0, 0, 0, 0)]
+    hits = []
+    for full in (False, True):
+        inst = AxSharedInst(full, 1, 1, t, dw=32)
+        n = inst.netlist
+        zr = (0,) * (3 + 5)
+        err_cycle = None
+        forced = None
+        for c, (awv, awr, wv, wr) in enumerate(sched):
+            inst.apply((awv, 0, wv, 0, awr, wr, 0, 0) + zr)
+            o = inst.sample()
+            if o[-3] and err_cycle is None:
+                err_cycle = c
+            if err_cycle is not None and c > err_cycle and forced is None and (o[4], o[5]) == (1, 1) and not (awr or wr):
+                forced = c                      # owner sees aw.ready = w.ready = 1 although the slave is not ready
+            n.tick()
+        if err_cycle is not None:
+            hits.append("%s: error pulse in cycle %d (longest stall of any single beat: 2 cycles, timeout %d)%s" % (
+                "AXIInterconnectShared" if full else "AXILiteInterconnectShared", err_cycle, t,
+                ", AW2/W2 absorbed by the timeout in cycle %d" % forced if forced is not None else ""))
+    # read side and Wishbone for comparison: every handshake cycle has wait = 0, the timer reloads
+    inst = AxSharedInst(False, 1, 1, t, dw=32)
+    zw = (0,) * 8
+    rd_err = False
+    for c in range(24):                          # back-to-back ARs, each stalled 2 cycles, accepted in the third
+        inst.apply(zw + (1, 0, 1) + (1 if c % 3 == 2 else 0, 1 if c > 3 else 0, 0, 0, 0))
+        rd_err |= bool(inst.sample()[-3])
+        inst.netlist.tick()
+    wb = WbSharedInst(1, 1, t)
+    wb_err = False
+    for c in range(24):                          # stb held high across back-to-back acks, each after 2 stall cycles
+        wb.apply((1, 1, 0, 1 if c % 3 == 2 else 0, 0, 0x5a))
+        wb_err |= bool(wb.sample()[6])
+        wb.netlist.tick()
+    return bool(hits), "timeout_cycles=%d, back-to-back writes, per-beat stalls <= %d: %s; read side (back-to-back ARs): %s; " \
+        "wishbone (stb held across acks): %s" % (t, t - 2, "; ".join(hits) if hits else "no error",
+                                                 "error" if rd_err else "no error", "error" if wb_err else "no error")
